@@ -80,3 +80,129 @@ pub use crate::bitbox::verif::{allocate_bucket, hash_raw_page_id, probe_results}
 // `DB::open`) and the page diff.
 pub use crate::bitbox::verif::{open_and_recover, wal_read, PlainWalEntry, WalSim};
 pub use crate::page_diff::PageDiff;
+
+// ---------------------------------------------------------------------------------------------
+// Overlays (`overlay.rs`) built from explicit change maps, without a store: `LiveOverlay::new`,
+// `value`, `value_iter`, `page`, `finish` (and through it `Index::prune_below` / `insert_*`), the
+// status transitions, and read-only views of the private index.
+
+pub use crate::overlay::{InvalidAncestors, Overlay};
+use crate::{
+    beatree::ValueChange,
+    overlay::LiveOverlay,
+    page_cache::PageMut,
+    store::{BucketInfo, DirtyPage, SharedMaybeBucketIndex},
+};
+use nomt_core::{page_id::PageId, trie::KeyPath};
+
+/// `None` = `ValueChange::Delete`, `Some(v)` = `ValueChange::Insert(v)`.
+pub type Change = Option<Vec<u8>>;
+
+fn to_change(c: Change) -> ValueChange {
+    match c {
+        None => ValueChange::Delete,
+        Some(v) => ValueChange::Insert(v),
+    }
+}
+
+fn from_change(c: &ValueChange) -> Change {
+    c.as_option().map(|v| v.to_vec())
+}
+
+/// What a session holds: the validated chain of live ancestors.
+pub struct LiveSim {
+    live: LiveOverlay,
+    page_pool: PagePool,
+}
+
+impl LiveSim {
+    /// `LiveOverlay::new` on the given ancestors (youngest first).
+    pub fn new<'a>(
+        ancestors: impl IntoIterator<Item = &'a Overlay>,
+    ) -> Result<Self, InvalidAncestors> {
+        Ok(LiveSim {
+            live: LiveOverlay::new(ancestors)?,
+            page_pool: PagePool::new(),
+        })
+    }
+
+    /// `(has parent, ancestor_data.len(), min_seqn)`
+    pub fn shape(&self) -> (bool, usize, u64) {
+        self.live.verif_shape()
+    }
+
+    /// `LiveOverlay::value`
+    pub fn value(&self, key: &KeyPath) -> Option<Change> {
+        self.live.value(key).map(|c| from_change(&c))
+    }
+
+    /// `LiveOverlay::value_iter`, collected.
+    pub fn value_iter(&self, start: KeyPath, end: Option<KeyPath>) -> Vec<(KeyPath, Change)> {
+        self.live
+            .value_iter(start, end)
+            .map(|(k, c)| (k, from_change(c)))
+            .collect()
+    }
+
+    /// `LiveOverlay::page`: the marker byte the page was created with.
+    pub fn page(&self, page_id: &PageId) -> Option<u8> {
+        self.live.page(page_id).map(|p| p.page.node(0)[0])
+    }
+
+    /// `LiveOverlay::finish` (on a clone of the live overlay, as `Session::finish` +
+    /// `FinishedSession::into_overlay` do with the session's own). Pages are pristine pages whose
+    /// node 0 is filled with the marker byte.
+    pub fn finish(
+        &self,
+        prev_root: [u8; 32],
+        root: [u8; 32],
+        pages: Vec<(PageId, u8)>,
+        values: Vec<(KeyPath, Change)>,
+    ) -> Overlay {
+        let page_changes = pages
+            .into_iter()
+            .map(|(page_id, marker)| {
+                let mut page = PageMut::pristine_empty(&self.page_pool, &page_id);
+                page.set_node(0, [marker; 32]);
+                let dirty = DirtyPage {
+                    page: page.freeze(),
+                    diff: PageDiff::default(),
+                    bucket: BucketInfo::FreshOrDependent(SharedMaybeBucketIndex::new(None)),
+                };
+                (page_id, dirty)
+            })
+            .collect();
+        let value_changes = values.into_iter().map(|(k, c)| (k, to_change(c))).collect();
+        self.live
+            .clone()
+            .finish(prev_root, root, page_changes, value_changes, None)
+    }
+}
+
+/// `(seqn, index.values ascending by key, index.values_by_seqn front to back, ancestor_data.len())`
+pub fn overlay_index(o: &Overlay) -> (u64, Vec<(KeyPath, u64)>, Vec<(u64, KeyPath)>, usize) {
+    o.verif_index()
+}
+
+/// `(index.pages as (encoded page id, seqn) ascending by encoded id, index.pages_by_seqn front to back)`
+pub fn overlay_page_index(o: &Overlay) -> (Vec<([u8; 32], u64)>, Vec<(u64, [u8; 32])>) {
+    o.verif_page_index()
+}
+
+/// 0 = live, 1 = dropped, 2 = committed.
+pub fn overlay_status(o: &Overlay) -> usize {
+    o.verif_status()
+}
+
+/// The parent's status as recorded in this overlay (`None`: no parent).
+pub fn overlay_parent_status(o: &Overlay) -> Option<usize> {
+    o.verif_parent_status()
+}
+
+/// `Overlay::mark_committed` (what a successful `Overlay::commit` does to the status).
+pub fn overlay_mark_committed(o: &Overlay) {
+    let _ = o.mark_committed();
+}
+
+/// The real `BeatreeIterator` (staging maps merged with on-disk leaves) over hand-built leaves.
+pub use crate::beatree::iterator::verif::{run_iterator as beatree_run_iterator, LeafSpec};
